@@ -61,6 +61,7 @@ def _load(prop):
 def _run_task(args):
     prop, oname, param, tier, seed, forced = args
     os.environ['VERIF_SEED'] = str(seed)
+    os.environ['VERIF_TIER_EFFECTIVE'] = tier
     obls = _load(prop)
     o = next(x for x in obls if x.name == oname)
     t0 = time.time()
